@@ -6,6 +6,8 @@ package main
 
 import (
 	"strings"
+
+	xhtml "golang.org/x/net/html"
 )
 
 type NKind uint8
@@ -56,7 +58,35 @@ func allWS(s string) bool {
 	return true
 }
 
-func (n *Node) isWSText() bool { return n.Kind == KText && allWS(n.Text) }
+// isWSText: text that is white space only after character-reference decoding ("&#9;" is white space
+// for the tree construction stage just like a literal tab).
+func (n *Node) isWSText() bool {
+	if n.Kind != KText {
+		return false
+	}
+	if allWS(n.Text) {
+		return true
+	}
+	if strings.IndexByte(n.Text, '&') < 0 {
+		return false
+	}
+	return allWS(xhtml.UnescapeString(n.Text))
+}
+
+// startsWS: the first character of the text (after decoding) is white space.
+func (n *Node) startsWS() bool {
+	if n.Kind != KText || n.Text == "" {
+		return false
+	}
+	if isWS(n.Text[0]) {
+		return true
+	}
+	if n.Text[0] == '&' {
+		d := xhtml.UnescapeString(n.Text)
+		return d != "" && isWS(d[0])
+	}
+	return false
+}
 
 func (n *Node) isElem(tags ...string) bool {
 	if n == nil || n.Kind != KElem {
@@ -103,7 +133,7 @@ func canOmitEnd(n, parent *Node, kids []*Node, i int) bool {
 		lit = kids[i+1]
 	}
 	nx := nextSig(kids, i)
-	litWSorComment := lit != nil && (lit.Kind == KComment || lit.Kind == KText && len(lit.Text) > 0 && isWS(lit.Text[0]))
+	litWSorComment := lit != nil && (lit.Kind == KComment || lit.startsWS())
 	switch n.Tag {
 	case "html", "body":
 		return lit == nil || lit.Kind != KComment
@@ -114,7 +144,7 @@ func canOmitEnd(n, parent *Node, kids []*Node, i int) bool {
 		// if the body start tag is left out as well, what follows is the body's first child
 		if lit != nil && lit.isElem("body") && lit.effOS && len(lit.Kids) > 0 {
 			f := lit.Kids[0]
-			if f.Kind == KComment || f.Kind == KText && len(f.Text) > 0 && isWS(f.Text[0]) {
+			if f.Kind == KComment || f.startsWS() {
 				return false
 			}
 		}
@@ -171,7 +201,7 @@ func canOmitStart(n, parent *Node, kids []*Node, i int, avoid bool) bool {
 		if first == nil {
 			return true
 		}
-		if first.Kind == KComment || first.Kind == KText && len(first.Text) > 0 && isWS(first.Text[0]) {
+		if first.Kind == KComment || first.startsWS() {
 			return false
 		}
 		if first.isElem("meta", "noscript", "link", "script", "style", "template") {
